@@ -339,5 +339,5 @@ def build(tier):
         "stubs": ["logging/humanize_error -> no-op", "time.localtime/calendar.timegm -> "
                   "uninterpreted", "connection object -> recording fake",
                   "MQTT pub/sub callbacks -> recording fakes"],
-        "budget_s": 1500 if q else 7200,
+        "budget_s": 3000 if q else 14400,
     }
